@@ -298,8 +298,17 @@ def real_crop(c):
 
 
 def gen_not_crossable(rng):
-    b = [rng.choice([0.0, 1.0, 2.0, 3.0, NAN, INF]) for _ in range(rng.randint(0, 3))]
-    return dict(v=rng.choice([NAN, 0.0, 1.0, 2.0, 5.0, INF, -INF]), barriers=b)
+    # value classes: NaN, +-0, small numbers, +-inf; barrier lists: empty, duplicates, NaN / +-inf entries, the value
+    # first / last / absent, up to 6 entries
+    pool = [0.0, -0.0, 1.0, 2.0, 3.0, 0.5, -1.0, NAN, INF, -INF]
+    b = [rng.choice(pool) for _ in range(rng.choice([0, 0, 1, 1, 2, 3, 6]))]
+    v = rng.choice([NAN, 0.0, -0.0, 1.0, 2.0, 5.0, 0.5, INF, -INF])
+    k = rng.random()
+    if b and k < 0.2 and v == v:
+        b[-1] = v
+    elif b and k < 0.3 and v == v:
+        b[0] = v
+    return dict(v=v, barriers=b)
 
 
 def line_not_crossable(c):
@@ -313,7 +322,9 @@ def real_not_crossable(c):
 
 
 def gen_inside(rng):
-    return dict(py=rng.randint(-2, 6), px=rng.randint(-2, 6), h=rng.randint(0, 5), w=rng.randint(0, 5))
+    h, w = rng.randint(0, 5), rng.randint(0, 5)
+    edge = lambda n: rng.choice([-1, 0, n - 1, n, n + 1, rng.randint(-2, 6)])
+    return dict(py=edge(h), px=edge(w), h=h, w=w)
 
 
 def line_inside(c):
@@ -326,11 +337,19 @@ def real_inside(c):
 
 
 def gen_min_cost(rng):
-    h, w = rng.randint(1, 4), rng.randint(1, 4)
+    # classes: mixed; every cost >= the initial bound (h+w)^2 (-> (NONE, NONE)); ties of the minimum (first wins);
+    # NaN / +-inf / negative costs; nothing open; everything open
+    h, w = rng.randint(1, 6), rng.randint(1, 6)
     big = (h + w) ** 2
-    pool = [0.0, 1.0, 1.0, 2.5, 3.0, float(big), float(big + 1), float(big) - 0.5, NAN, INF]
+    kind = rng.choice(["mixed", "mixed", "above", "ties", "nan", "neg"])
+    pool = {"mixed": [0.0, 1.0, 1.0, 2.5, 3.0, float(big), float(big + 1), float(big) - 0.5, NAN, INF],
+            "above": [float(big), float(big + 1), float(big) + 0.5, INF, NAN, float(2 * big)],
+            "ties": [1.0, 1.0, 1.0, 2.0, float(big)],
+            "nan": [NAN, NAN, NAN, 1.0, float(big) - 0.5, INF],
+            "neg": [-1.0, -2.5, 0.0, -0.0, -INF, 1.0, NAN]}[kind]
     cost = np.array(pick_vals(rng, pool, h * w)).reshape(h, w)
-    is_open = np.array([rng.random() < rng.choice([0.2, 0.6, 1.0]) for _ in range(h * w)]).reshape(h, w)
+    p = rng.choice([0.0, 0.2, 0.6, 1.0])
+    is_open = np.array([rng.random() < p for _ in range(h * w)]).reshape(h, w)
     return dict(cost=cost.tolist(), is_open=is_open.astype(int).tolist())
 
 
@@ -347,13 +366,30 @@ def real_min_cost(c):
 
 
 def gen_nearest(rng):
-    data = grid(rng, [0.0, 1.0, 1.0, 2.0, NAN, NAN, 3.0], 4, 4)
-    if rng.random() < 0.3:
+    # snap classes: the queried cell crossable (returned as is); nothing crossable (-> (NONE, NONE)); one lone
+    # crossable cell (often the far corner); equidistant candidates (row-major tie-breaking); barrier values in the list
+    h, w = rng.randint(1, 6), rng.randint(1, 6)
+    kind = rng.choice(["mixed", "mixed", "none", "lone", "ring", "keep"])
+    pool = [0.0, 1.0, 1.0, 2.0, NAN, NAN, 3.0]
+    data = np.array(pick_vals(rng, pool, h * w), dtype=np.float64).reshape(h, w)
+    py, px = rng.randrange(h), rng.randrange(w)
+    b = [rng.choice([0.0, 1.0, 2.0, 3.0, NAN, INF]) for _ in range(rng.randint(0, 3))]
+    if kind == "none":
+        data[:] = NAN if rng.random() < 0.5 else 2.0
+        if 2.0 not in b:
+            b.append(2.0)
+    elif kind == "lone":
         data[:] = NAN
-        if rng.random() < 0.7:
-            data[rng.randrange(data.shape[0]), rng.randrange(data.shape[1])] = 1.0
-    b = [rng.choice([0.0, 1.0, 2.0, 3.0]) for _ in range(rng.randint(0, 2))]
-    return dict(py=rng.randrange(data.shape[0]), px=rng.randrange(data.shape[1]), data=data.tolist(), barriers=b)
+        y, x = rng.choice([(0, 0), (h - 1, w - 1), (0, w - 1), (h - 1, 0), (rng.randrange(h), rng.randrange(w))])
+        data[y, x] = 5.0
+        py, px = rng.choice([(0, 0), (h - 1, w - 1), (py, px)])
+    elif kind == "ring":
+        # every cell crossable except the queried one: its 4 / 8 neighbours tie
+        data[:] = 5.0
+        data[py, px] = NAN
+    elif kind == "keep":
+        data[py, px] = 7.0
+    return dict(py=py, px=px, data=data.tolist(), barriers=b)
 
 
 def line_nearest(c):
@@ -368,23 +404,60 @@ def real_nearest(c):
 
 
 def gen_astar(rng):
-    h, w = rng.randint(1, 5), rng.randint(1, 5)
+    # classes: random mazes; a wall that cuts the raster (no route); start = goal; blocked start / goal; an island
+    # goal; barrier lists with NaN / inf; custom offset arrays (unequal lengths -> zip truncates, the null offset,
+    # knight moves) -- everything the jitted function accepts
+    h, w = rng.randint(1, 7), rng.randint(1, 7)
+    kind = rng.choice(["maze", "maze", "maze", "wall", "same", "blocked", "island", "open"])
     p = rng.choice([0.0, 0.15, 0.3, 0.5])
+    if kind == "open":
+        p = 0.0
     data = np.array([NAN if rng.random() < p * 0.5 else (0.0 if rng.random() < p else rng.choice([1.0, 2.0, 3.0]))
                      for _ in range(h * w)]).reshape(h, w)
-    b = rng.choice([[], [0.0], [0.0, 3.0], [2.0]])
-    conn = rng.choice([4, 8])
-    return dict(data=data.tolist(), barriers=b, conn=conn, sy=rng.randrange(h), sx=rng.randrange(w),
-                gy=rng.randrange(h), gx=rng.randrange(w))
+    b = rng.choice([[], [0.0], [0.0, 3.0], [2.0], [0.0, NAN], [INF, 0.0]])
+    sy, sx, gy, gx = rng.randrange(h), rng.randrange(w), rng.randrange(h), rng.randrange(w)
+    if kind == "wall" and (h > 2 or w > 2):
+        if h > 2 and (w <= 2 or rng.random() < 0.5):
+            r0 = rng.randrange(1, h - 1)
+            data[r0, :] = NAN if rng.random() < 0.5 else 0.0
+            if 0.0 not in b:
+                b = b + [0.0]
+            sy, gy = rng.randrange(0, r0), rng.randrange(r0 + 1, h)
+        else:
+            c0 = rng.randrange(1, w - 1)
+            data[:, c0] = NAN
+            sx, gx = rng.randrange(0, c0), rng.randrange(c0 + 1, w)
+    elif kind == "same":
+        gy, gx = sy, sx
+    elif kind == "blocked":
+        if rng.random() < 0.5:
+            data[sy, sx] = NAN
+        else:
+            data[gy, gx] = NAN
+    elif kind == "island":
+        for dy in (-1, 0, 1):
+            for dx in (-1, 0, 1):
+                y, x = gy + dy, gx + dx
+                if (dy or dx) and 0 <= y < h and 0 <= x < w:
+                    data[y, x] = NAN
+        data[gy, gx] = 1.0
+    c = dict(data=data.tolist(), barriers=b, conn=rng.choice([4, 8]), sy=sy, sx=sx, gy=gy, gx=gx)
+    if rng.random() < 0.15:
+        n1, n2 = rng.randint(0, 9), rng.randint(0, 9)
+        c["nys"] = [rng.choice([-1, 0, 1, 0, 2, -2]) for _ in range(n1)]
+        c["nxs"] = [rng.choice([-1, 0, 1, 1, 2, -2]) for _ in range(n2)]
+    return c
 
 
-def nbr(conn):
+def nbr(conn, c=None):
+    if c is not None and "nys" in c:
+        return np.asarray(c["nys"], dtype=np.int64), np.asarray(c["nxs"], dtype=np.int64)
     ys, xs = mod("xrspatial.pathfinding")._neighborhood_structure(conn)
     return np.asarray(ys, dtype=np.int64), np.asarray(xs, dtype=np.int64)
 
 
 def line_astar(c):
-    ys, xs = nbr(c["conn"])
+    ys, xs = nbr(c["conn"], c)
     d = np.array(c["data"], dtype=np.float64)
     path = np.full(d.shape, NAN)
     return (f"af.data={farr(d)} af.path_img={farr(path)} i.start_py={c['sy']} i.start_px={c['sx']} "
@@ -394,7 +467,7 @@ def line_astar(c):
 
 def real_astar(c):
     f = mod("xrspatial.pathfinding")._a_star_search
-    ys, xs = nbr(c["conn"])
+    ys, xs = nbr(c["conn"], c)
     d = np.array(c["data"], dtype=np.float64)
     path = np.full(d.shape, NAN)
     b = np.array(c["barriers"], dtype=np.float64)
@@ -403,8 +476,10 @@ def real_astar(c):
 
 
 def gen_reconstruct(rng):
-    # a parent forest that really leads to the start (as _a_star_search builds it), or no path at all
-    h, w = rng.randint(1, 4), rng.randint(1, 4)
+    # a parent forest that really leads to the start (as _a_star_search builds it); goals: a reached cell, the start
+    # itself, an unreached cell (no parent: nothing is written), a cell with only one of the two pointers set
+    # (never a cycle that avoids the start: the real function would not return)
+    h, w = rng.randint(1, 6), rng.randint(1, 6)
     sy, sx = rng.randrange(h), rng.randrange(w)
     py = -np.ones((h, w), dtype=np.int64)
     px = -np.ones((h, w), dtype=np.int64)
@@ -412,12 +487,25 @@ def gen_reconstruct(rng):
     reached = [(sy, sx)]
     cells = [(y, x) for y in range(h) for x in range(w) if (y, x) != (sy, sx)]
     rng.shuffle(cells)
+    deep = rng.random() < 0.4
     for (y, x) in cells[: rng.randint(0, len(cells))]:
-        q = rng.choice(reached)
+        q = reached[-1] if deep else rng.choice(reached)
         py[y, x], px[y, x] = q
         reached.append((y, x))
-    gy, gx = rng.choice(reached) if rng.random() < 0.75 else (rng.randrange(h), rng.randrange(w))
-    cost = np.array([float(rng.randint(0, 9)) / 2 for _ in range(h * w)]).reshape(h, w)
+    k = rng.random()
+    if k < 0.65:
+        gy, gx = reached[-1] if deep else rng.choice(reached)
+    elif k < 0.75:
+        gy, gx = sy, sx
+    else:
+        gy, gx = rng.randrange(h), rng.randrange(w)
+        if (gy, gx) not in reached and rng.random() < 0.5:
+            if rng.random() < 0.5:
+                py[gy, gx] = sy
+            else:
+                px[gy, gx] = sx
+    cost = np.array([rng.choice([float(rng.randint(0, 9)) / 2, NAN, INF]) if rng.random() < 0.1
+                     else float(rng.randint(0, 9)) / 2 for _ in range(h * w)]).reshape(h, w)
     return dict(py=py.tolist(), px=px.tolist(), cost=cost.tolist(), sy=sy, sx=sx, gy=int(gy), gx=int(gx))
 
 
